@@ -182,11 +182,14 @@ What is TRUE (proved below):
    (`api_dor_ignored_weightfile`).
  * `wmean` with a weight file: whenever both paths succeed the results are `SameAs`
    (`api_dor_weighted_same_partial`), except for F47 (float32 map, float64 weights: `hF47`).
-   The two paths do NOT reject the same inputs: on read only "the weight file covers every
-   coverage pixel processed" (H1) is checked, in memory only "same valid pixels" (H2);
-   neither implies the other (FINDINGS `weights_extra_valid`, `weights_empty_block` below);
-   under H1 ∧ H2 they agree (`api_dor_weighted_partial`); H1 is necessary on read
-   (`api_dor_weighted_needs_H1`), H2 in memory (`api_rtd_weighted_needs_H2`).
+   The rejections: in memory the two maps read must have the same valid pixels (H2); on read
+   (after the `fix:` commit for the defect `weights_empty_block` found here) the weight file
+   must cover every processed coverage pixel in which the map has an observed pixel — which
+   FOLLOWS from H2.  Under H2 the two paths agree (`api_dor_weighted_partial`; H0: a pixel
+   request must touch the weight file's coverage, else the reference path cannot read it).
+   H2 is necessary in memory (`api_rtd_weighted_needs_H2`) but NOT checked on read: known
+   finding F68, `weights_extra_valid`.  What the on-read check amounts to:
+   `api_dor_weighted_needs_H1`.
  * kind recovery, accepted reductions, output dtype and sentinel of every successful call:
    `api_dor_ok_rules` (on read), `api_rtd_ok_rules` (in memory).
  * outside the range degrade-on-read always raises (`api_dor_out_of_range`) while the in-memory
@@ -236,20 +239,21 @@ theorem api_dor_weighted_same_partial {f w : FileObj} (hf : f.WF) (hfk : f.KindO
       auxDT dt0 = .flt 64) : a.SameAs b :=
   dor_weighted_same hf hfk hw hL hR hF47
 
-/-- **C19, API level, `wmean` with a weight file: the rejections** (PARTIAL: H1 and H2 cannot
-    be dropped — `weights_empty_block`, `weights_extra_valid`) -/
+/-- **C19, API level, `wmean` with a weight file: the rejections** (PARTIAL in H2: F68,
+    `weights_extra_valid`; and in H0: `weights_request_outside`).  The on-read weight-coverage
+    check needs no hypothesis: it follows from H2. -/
 theorem api_dor_weighted_partial {f w : FileObj} (hf : f.WF) (hfk : f.KindOk) (hw : w.WF)
     (hbp : w.bitpack = true → w.arrDT = "u1")
     {ordOut : Nat} (hlo : f.covord ≤ ordOut) (hhi : ordOut < f.spord) (pixels : Option (List Nat))
-    (H1 : ∀ px, dorPixels (fCfg f) f.file pixels = some px → w.covord = f.covord →
-      w.spord = f.spord → ∀ k ∈ px, covered (fCfg f) (readFull w.file) k = true)
+    (H0 : ∀ l, pixels = some l →
+      ∃ k ∈ l, k < (fCfg w).ncov ∧ covered (fCfg w) (readFull w.file) k = true)
     (H2 : ∀ r wm, apiRead f pixels = .ok r → apiRead w pixels = .ok wm → wm.covord = r.covord →
       wm.spord = r.spord → ∀ p, p < r.npix → r.vc.valid (r.abs p) = wm.vc.valid (wm.abs p))
     (hF47 : ∀ dt0, fileKind f = some (.plain dt0) → fileKind w = some (.plain (.flt 64)) →
       auxDT dt0 = .flt 64) :
     Agree (apiDegradeOnRead f ordOut "wmean" pixels (some w))
       (apiReadThenDegrade f ordOut "wmean" pixels (some w)) :=
-  dor_weighted hf hfk hw hbp hlo hhi pixels H1 H2 hF47
+  dor_weighted hf hfk hw hbp hlo hhi pixels H0 H2 hF47
 
 /-- outside `nside_coverage ≤ nside_out < nside_sparse` degrade-on-read always raises -/
 theorem api_dor_out_of_range (f : FileObj) {ordOut : Nat} (h : ordOut ≥ f.spord ∨ ordOut < f.covord)
@@ -297,13 +301,14 @@ theorem api_rtd_ok_rules {f : FileObj} {ordOut : Nat} (hlo : f.covord ≤ ordOut
       coreAccepts kind red = true :=
   rtd_ok_rules hlo hhi h
 
-/-- H1 is NECESSARY on read: a successful `wmean` degrade-on-read means the weight file has the
-    map's resolutions and covers every coverage pixel processed -/
+/-- what the on-read weight checks amount to: a successful `wmean` degrade-on-read means the
+    weight file has the map's resolutions and covers every coverage pixel processed in which the
+    map has an observed pixel (`ApiDor.observed`) -/
 theorem api_dor_weighted_needs_H1 {f w : FileObj} {ordOut : Nat} {pixels : Option (List Nat)}
     {a : MapObj} (h : apiDegradeOnRead f ordOut "wmean" pixels (some w) = .ok a) :
     w.covord = f.covord ∧ w.spord = f.spord ∧
-      ∃ px, dorPixels (fCfg f) f.file pixels = some px ∧
-        ∀ k ∈ px, covered (fCfg f) (readFull w.file) k = true :=
+      ∃ px kind, dorPixels (fCfg f) f.file pixels = some px ∧ fileKind f = some kind ∧
+        ∀ k ∈ px, covered (fCfg f) (readFull w.file) k = true ∨ observed f kind k = false :=
   dor_weighted_ok_H1 h
 
 /-- H2 is NECESSARY in memory: a successful `wmean` read-then-degrade means the two maps read
@@ -347,13 +352,11 @@ theorem api_dor_written_unweighted_partial {m : MapObj} (hm : m.Ok) (md : List (
       (apiReadThenDegrade (apiWrite m md) ordOut red pixels none) :=
   api_dor_unweighted_agree_partial (Ok.apiWrite md hm).1 hlo hhi red pixels hbool (fun _ _ _ hao => hty hao)
 
-/-- **C19, API level, for written map and weight map, whole-file read** (PARTIAL in H1, H2):
-    H1 — the weight map covers every coverage pixel of the map; H2 — same valid pixels -/
+/-- **C19, API level, for written map and weight map, whole-file read** (PARTIAL in H2 — same
+    valid pixels; F68) -/
 theorem api_dor_written_weighted_partial {m wm : MapObj} (hm : m.Ok) (hwm : wm.Ok)
     (md md' : List (String × String)) {ordOut : Nat} (hlo : m.covord ≤ ordOut)
     (hhi : ordOut < m.spord)
-    (H1 : wm.covord = m.covord → wm.spord = m.spord →
-      ∀ k, k < m.c.ncov → covered m.c m.st k = true → covered m.c wm.st k = true)
     (H2 : wm.covord = m.covord → wm.spord = m.spord →
       ∀ p, p < m.npix → m.vc.valid (m.abs p) = wm.vc.valid (wm.abs p))
     (hF47 : ∀ dt0, fileKind (apiWrite m md) = some (.plain dt0) →
@@ -362,27 +365,21 @@ theorem api_dor_written_weighted_partial {m wm : MapObj} (hm : m.Ok) (hwm : wm.O
       (apiReadThenDegrade (apiWrite m md) ordOut "wmean" none (some (apiWrite wm md'))) := by
   obtain ⟨hf, hfk⟩ := Ok.apiWrite md hm
   refine api_dor_weighted_partial hf hfk (Ok.apiWrite md' hwm).1 (apiWrite_bitpack wm md') hlo hhi none
-    ?_ ?_ hF47
-  · intro px hpx hco hso k hk
-    have e : px = allCovered m.c m.st := (Option.some.inj hpx).symm
-    rw [e] at hk
-    obtain ⟨h1, h2⟩ := (mem_allCovered m.c m.st k).1 hk
-    exact H1 hco hso k h1 h2
-  · intro r wr hr hwr hco hso p hp
-    obtain ⟨r1, r2, _, r4, r5⟩ := apiRead_written hm.2.2 hr
-    obtain ⟨w1, w2, _, w4, w5⟩ := apiRead_written hwm.2.2 hwr
-    have hco' : wm.covord = m.covord := by rw [← w1, ← r1]; exact hco
-    have hso' : wm.spord = m.spord := by rw [← w2, ← r2]; exact hso
-    have hp' : p < m.npix := by
-      have : r.npix = m.npix := by unfold MapObj.npix MapObj.c; rw [r1, r2]
-      rw [← this]; exact hp
-    have ea : r.abs p = m.abs p := by
-      unfold MapObj.abs MapObj.c; rw [r1, r2, r4, r5]
-    have eb : wr.abs p = wm.abs p := by
-      unfold MapObj.abs MapObj.c; rw [w1, w2, w4, w5]
-    rw [ea, eb, r5, w5]
-    exact H2 hco' hso' p hp'
-
+    (fun l hl => nomatch hl) ?_ hF47
+  intro r wr hr hwr hco hso p hp
+  obtain ⟨r1, r2, _, r4, r5⟩ := apiRead_written hm.2.2 hr
+  obtain ⟨w1, w2, _, w4, w5⟩ := apiRead_written hwm.2.2 hwr
+  have hco' : wm.covord = m.covord := by rw [← w1, ← r1]; exact hco
+  have hso' : wm.spord = m.spord := by rw [← w2, ← r2]; exact hso
+  have hp' : p < m.npix := by
+    have : r.npix = m.npix := by unfold MapObj.npix MapObj.c; rw [r1, r2]
+    rw [← this]; exact hp
+  have ea : r.abs p = m.abs p := by
+    unfold MapObj.abs MapObj.c; rw [r1, r2, r4, r5]
+  have eb : wr.abs p = wm.abs p := by
+    unfold MapObj.abs MapObj.c; rw [w1, w2, w4, w5]
+  rw [ea, eb, r5, w5]
+  exact H2 hco' hso' p hp'
 
 /-- the reference path SUCCEEDS for a written float map and a written float weight map with the
     same resolutions and the same valid pixels (whole-file read); the result is float64 as soon
@@ -539,8 +536,8 @@ theorem f47 : ∃ a b,
   rw [hp, hbk] at this
   cases this
 
-/-- **FINDING (new)**: a weight map with one more valid pixel (H1 holds, H2 fails: pixel 7) is
-    accepted on read and rejected in memory -/
+/-- **KNOWN FINDING F68**: a weight map with one more valid pixel (H2 fails: pixel 7; the weight
+    file covers everything) is accepted on read and rejected in memory -/
 theorem weights_extra_valid :
     isOk (apiDegradeOnRead (apiWrite exF64 []) 0 "wmean" none (some (apiWrite exWx []))) = true ∧
     ¬ ∃ b, apiReadThenDegrade (apiWrite exF64 []) 0 "wmean" none (some (apiWrite exWx [])) = .ok b := by
@@ -559,17 +556,41 @@ theorem weights_extra_valid :
   revert h7
   decide +kernel
 
-/-- **FINDING (new)**: a map with an allocated block without valid pixels that the weight map does
-    not cover (H2 holds, H1 fails: coverage pixel 3) is rejected on read and accepted in memory -/
-theorem weights_empty_block :
-    errIs (apiDegradeOnRead (apiWrite exF64e []) 0 "wmean" none (some (apiWrite exW []))) .value = true ∧
-    ∃ b, apiReadThenDegrade (apiWrite exF64e []) 0 "wmean" none (some (apiWrite exW [])) = .ok b := by
-  refine ⟨by decide +kernel, ?_⟩
-  obtain ⟨b, hb, _⟩ := rtd_written_weighted_ok (m := exF64e) (wm := exW) ex_ok.2.2.2.2.2.2.2.1
-    ex_ok.2.2.2.2.2.2.2.2.1 [] [] (ordOut := 0) (by decide +kernel) (by decide +kernel)
-    (b0 := 64) (wb := 64) (by decide +kernel) (by decide +kernel) (by decide +kernel)
-    (by decide +kernel) (by decide +kernel) (by decide +kernel)
-  exact ⟨b, hb⟩
+/-- **REGRESSION (defect found here, FIXED in the library; the model mirrors the fix)**: a map with
+    an allocated block without valid pixels (coverage pixel 3) that the weight map does not cover.
+    Before the fix degrade-on-read raised `ValueError` ("must have coverage in all the pixels to
+    read") where read-then-degrade succeeds; now the two paths AGREE: both succeed, `SameAs`. -/
+theorem weights_empty_block : ∃ a b,
+    apiDegradeOnRead (apiWrite exF64e []) 0 "wmean" none (some (apiWrite exW [])) = .ok a ∧
+    apiReadThenDegrade (apiWrite exF64e []) 0 "wmean" none (some (apiWrite exW [])) = .ok b ∧
+    a.SameAs b ∧
+    -- the weight file does not cover coverage pixel 3, which the map file covers
+    covered (fCfg (apiWrite exF64e [])) (readFull (apiWrite exF64e []).file) 3 = true ∧
+    covered (fCfg (apiWrite exF64e [])) (readFull (apiWrite exW []).file) 3 = false := by
+  have hm := ex_ok.2.2.2.2.2.2.2.1
+  have hw := ex_ok.2.2.2.2.2.2.2.2.1
+  have hk : fileKind (apiWrite exF64e []) = some (.plain (.flt 64)) := by decide +kernel
+  have hA := api_dor_written_weighted_partial hm hw [] [] (ordOut := 0) (by decide +kernel)
+    (by decide +kernel) (fun _ _ => by decide +kernel)
+    (fun dt0 h1 _ => by rw [hk] at h1; cases h1; rfl)
+  have h : ok2 (apiDegradeOnRead (apiWrite exF64e []) 0 "wmean" none (some (apiWrite exW [])))
+      (.ok exF64e) (fun _ _ => true) = true := by decide +kernel
+  obtain ⟨a, _, ha, _, _⟩ := ok2_elim h
+  obtain ⟨b, hb, _⟩ := rtd_written_weighted_ok (m := exF64e) (wm := exW) hm hw [] [] (ordOut := 0)
+    (by decide +kernel) (by decide +kernel) (b0 := 64) (wb := 64) hk (by decide +kernel)
+    (by decide +kernel) (by decide +kernel) (by decide +kernel) (by decide +kernel)
+  rw [ha, hb] at hA
+  exact ⟨a, b, ha, hb, hA, by decide +kernel, by decide +kernel⟩
+
+/-- H0 of `api_dor_weighted_partial` cannot be dropped: a pixel request that only touches a block
+    of the map without valid pixels and lies outside the weight file's coverage is degraded on
+    read, while the reference path cannot read the weights with that request (`RuntimeError`,
+    "None of the specified pixels are in the coverage map") -/
+theorem weights_request_outside :
+    isOk (apiDegradeOnRead (apiWrite exF64e []) 0 "wmean" (some [3]) (some (apiWrite exW []))) = true ∧
+    errIs (apiReadThenDegrade (apiWrite exF64e []) 0 "wmean" (some [3]) (some (apiWrite exW [])))
+      .runtime = true := by
+  decide +kernel
 
 /-- the exception classes can differ: `wmean` without weights on a wide mask -/
 theorem wide_wmean_classes :
@@ -625,7 +646,7 @@ example : ∃ a b,
   have hw := ex_ok.2.2.2.2.2.2.2.2.1
   have hk : fileKind (apiWrite exF64 []) = some (.plain (.flt 64)) := by decide +kernel
   have hA := api_dor_written_weighted_partial hm hw [] [] (ordOut := 0) (by decide +kernel)
-    (by decide +kernel) (fun _ _ => by decide +kernel) (fun _ _ => by decide +kernel)
+    (by decide +kernel) (fun _ _ => by decide +kernel)
     (fun dt0 h1 _ => by rw [hk] at h1; cases h1; rfl)
   have h : ok2 (apiDegradeOnRead (apiWrite exF64 []) 0 "wmean" none (some (apiWrite exW [])))
       (.ok exF64) (fun _ _ => true) = true := by decide +kernel
@@ -659,12 +680,12 @@ def replies (lines : List String) : List String :=
     "dor f=fa ord=0 red=wmean wf=fw r=a", "read f=fa r=b", "read f=fw r=bw",
     "deg b ord=0 red=wmean w=bw r=c"]
   == ["ok", "ok", "ok", "ok", "ok", "ok", "ok", "ok", "ok", "err ValueError"]
--- allocated empty block not covered by the weights: rejected on read, accepted in memory
+-- allocated empty block not covered by the weights: accepted by both paths (after the fix)
 #guard replies ["cfg m kind=plain dtype=f8 covord=0 spord=1 covpix=3", "upd m pix=5,6 vals=1,3",
     "write m f=fa", "cfg w kind=plain dtype=f8 covord=0 spord=1", "upd w pix=5,6 val=1", "write w f=fw",
     "dor f=fa ord=0 red=wmean wf=fw r=a", "read f=fa r=b", "read f=fw r=bw",
     "deg b ord=0 red=wmean w=bw r=c"]
-  == ["ok", "ok", "ok", "ok", "ok", "ok", "err ValueError", "ok", "ok", "ok"]
+  == ["ok", "ok", "ok", "ok", "ok", "ok", "ok", "ok", "ok", "ok"]
 -- nside_out = nside_sparse, nside_out < nside_coverage: rejected on read, accepted in memory
 #guard replies ["cfg m kind=plain dtype=i4 covord=0 spord=1", "upd m pix=5,40 vals=7,9", "write m f=fa",
     "dor f=fa ord=1 red=sum r=a", "read f=fa r=b", "deg b ord=1 red=sum r=c"]
